@@ -406,7 +406,7 @@ pub fn history(index: u64, mut rng: Rng, tier: Tier, focus: &str) -> Outcome {
 pub fn run(cfg: &Cfg) -> i32 {
     let mut agg = Agg::new(cfg);
     let tier = cfg.tier;
-    let n = tier.pick(400, 12_000);
+    let n = tier.pick(3000, 60_000);
     agg.run_parallel("paych", n, Duration::from_secs(tier.pick(120, 1500)), |i, rng| history(i, rng, tier, "C16"));
     agg.finish(
         "exploration",
